@@ -9,6 +9,8 @@ def run(ctx):
     provenance.rule_ownership(ctx)
     from . import cli
     cli.rule_dispatch(ctx)
+    provenance.rule_fresh_solver_per_encoding(ctx)
+    accept.rule_stage_layering(ctx, 'extension')
     ctx.assume("rustc's MIR / borrow checker (returned &Argument cannot point into a local component framework: witness W3, thorough tier)")
     return (
         "F5 return shapes of the six SingleExtensionComputer impls (`None` only for ST), F2/F5 on the stable solver's component loop (UNSAT in any "
